@@ -37,7 +37,7 @@ LEVEL = "exploration"
 HASH_SEEDS = [0, 1, 2, 3, 12345]
 
 K_PTR = "KF-C17-ptr-terminal-swallows-neighbours"
-K_ARGLESS = "KF-argless-call-dropped"  # recorded by C15; its parse half is what C17 sees
+K_ARGLESS = "KF-C17-argless-call-is-identifier"  # the parse half of KF-argless-call-dropped (C15)
 K_PAIR = "KF-C17-explicit-pair-at-statement-start-is-label"
 K_KWID = "KF-C17-keyword-read-as-identifier"
 K_KWSPLIT = "KF-C17-keyword-prefix-splits-identifier"
